@@ -5,3 +5,6 @@ package f09
 // Types: the constructor registry of the information-element types.  The real one (reg_gen.go, build tag c19ie) is
 // generated at check time from tables/ie_fields.json, exactly as for cmd/ietypes; without it the family is not built in.
 var Types = map[string]func() any{}
+
+// Direct: the scalar accessor pairs as plain calls (generated with Types).
+var Direct = map[string]Acc{}
